@@ -166,3 +166,54 @@ func VerifHarness_C11_flush_after_revert() {
 	vAssert(after.nonce == before.nonce && after.balance == before.balance && after.slot == before.slot && after.exist == before.exist,
 		"S5-flush-does-not-change-what-is-read")
 }
+
+// S6: a copy of the state (what read-only contract queries execute on) is independent of the
+// original in both directions, whatever the account's bookkeeping status at the time of the copy:
+// changed in the current transaction (journal), flushed but not committed, or clean in the cache
+// (as after Commit, or after merely having been read).
+func VerifHarness_C11_copy_is_independent() {
+	st := vNewState()
+	ad := vAddr(0)
+	var v1, v2 common.Hash
+	v1[31], v2[31] = 0x11, 0x22
+	st.SetNonce(ad, 1)
+	st.AddBalance(ad, big.NewInt(5))
+	st.SetState(ad, vKey(0), v1)
+	status := vNondetLen("object-status", 0, 2)
+	if status >= 1 {
+		st.IntermediateRoot(false)
+	}
+	if status == 2 {
+		if vSymbolic() {
+			// Commit hashes and encodes trie nodes (reflection: outside the engine). Its effect on the
+			// bookkeeping is reproduced instead: the object, written out, is clean in the cache; decoding
+			// the stored account yields the account as stored (seam). Storage of the committed account
+			// is only compared natively (the storage trie nodes exist only after a real Commit).
+			delete(st.stateObjectsDirty, ad)
+			enc, _ := st.trie.TryGet(ad[:])
+			acct := st.stateObjects[ad].data
+			vJSONBind(enc, &acct)
+		} else if _, err := st.Commit(false); err != nil {
+			panic(err)
+		}
+	}
+	cp := st.Copy()
+	from, to := cp, st // the copy is changed, the original observed ...
+	if vNondetBool("original-changes") {
+		from, to = st, cp // ... or the other way round
+	}
+	switch vNondetLen("mutation", 0, 2) {
+	case 0:
+		from.SetNonce(ad, 9)
+	case 1:
+		from.SetState(ad, vKey(0), v2)
+	default:
+		from.AddBalance(ad, big.NewInt(1))
+	}
+	vReach("copied-and-mutated")
+	vAssert(to.GetNonce(ad) == 1, "S6-nonce-does-not-leak-through-a-copy")
+	vAssert(to.GetBalance(ad).Int64() == 5, "S6-balance-does-not-leak-through-a-copy")
+	if !(vSymbolic() && status == 2) {
+		vAssert(to.GetState(ad, vKey(0)) == v1, "S6-storage-does-not-leak-through-a-copy")
+	}
+}
